@@ -129,6 +129,31 @@ def r11a(ctx: Context) -> None:
                     rule.fail(func_key(logger, strict[0]), where(logger, strict[0]), f"range test '{norm(strict[0])}' is not inclusive on both ends while the compiler stores the inclusive range (line+1, line+N)")
                 else:
                     rule.ok(func_key(logger, bounds["lower"][0][1]), "inclusive range test")
+    # a loop that looks for a suppressing entry looks at every entry: ranges overlap and nest, so no entry may end
+    # the search for the others (break), and the loop runs over the whole table (no slice of it)
+    for loop in [n for n in walk_local(logger.node) if isinstance(n, ast.For) and any(any(sub is ret for sub in ast.walk(n)) for ret in early)]:
+        def own(nodes: List[ast.stmt]) -> List[ast.AST]:
+            found: List[ast.AST] = []
+            for stmt in nodes:
+                if isinstance(stmt, (ast.For, ast.While, ast.FunctionDef, ast.AsyncFunctionDef, ast.ClassDef)):
+                    continue
+                if isinstance(stmt, ast.Break):
+                    found.append(stmt)
+                for field in ("body", "orelse", "finalbody", "handlers"):
+                    inner = getattr(stmt, field, None)
+                    if isinstance(inner, list):
+                        found.extend(own([h for h in inner if isinstance(h, ast.stmt)] + [b for h in inner if isinstance(h, ast.ExceptHandler) for b in h.body]))
+            return found
+
+        lkey = func_key(logger, loop) + " [every entry]"
+        breaks = own(loop.body)
+        sliced = [sub for sub in ast.walk(loop.iter) if isinstance(sub, ast.Subscript) and isinstance(sub.slice, ast.Slice)]
+        if breaks:
+            rule.fail(lkey, where(logger, breaks[0]), f"the search through '{norm(loop.iter)[:60]}' stops at an entry that does not suppress the failure: entries overlap (nested or overlapping disable-num-lines), so a later entry that covers the line is never consulted")
+        elif sliced:
+            rule.fail(lkey, where(logger, loop), f"the search runs over a part of the table only ('{norm(loop.iter)[:60]}')")
+        else:
+            rule.ok(lkey, "every entry is consulted until one suppresses the failure")
     for kind, text in (("table", "disable-next-line (line table)"), ("range", "disable-num-lines (range list)")):
         if kind not in kinds:
             rule.fail(func_key(logger) + f": filters [{kind}]", where(logger), f"no suppression exit before the print consults the {text}: that pragma is no longer honoured")
@@ -460,7 +485,7 @@ def r11d(ctx: Context) -> None:
             if iter_expr is None:
                 continue
             text = norm(iter_expr)
-            if "pragma_lines" not in text and not (isinstance(iter_expr, ast.Name) and _derived_from_pragma_lines(func, iter_expr.id)):
+            if "pragma_lines" not in text and not any(isinstance(sub, ast.Name) and _derived_from_pragma_lines(func, sub.id) for sub in ast.walk(iter_expr)):
                 continue
             key_var = None
             if isinstance(target, ast.Name):
@@ -471,6 +496,27 @@ def r11d(ctx: Context) -> None:
                 consumers.append((func, key_var, node))
     if len(consumers) < 3:
         raise AnalysisError(f"only {len(consumers)} loops over pragma_lines found (>= 3 confirmed)")
+    # ordering the raw keys is using them as numbers: a sort / min / max over the table must decode the sign
+    orderings = 0
+    for func in prog.iter_functions():
+        for node in walk_local(func.node):
+            if not (isinstance(node, ast.Call) and (dotted(node.func) in ("sorted", "min", "max") or isinstance(node.func, ast.Attribute) and node.func.attr == "sort")):
+                continue
+            subject = node.args[0] if node.args and dotted(node.func) in ("sorted", "min", "max") else node.func.value if isinstance(node.func, ast.Attribute) else None
+            if subject is None:
+                continue
+            if "pragma_lines" not in norm(subject) and not any(isinstance(sub, ast.Name) and _derived_from_pragma_lines(func, sub.id) for sub in ast.walk(subject)):
+                continue
+            orderings += 1
+            key_arg = next((k.value for k in node.keywords if k.arg == "key"), None)
+            decoded = key_arg is not None and (dotted(key_arg) == "abs" or any(isinstance(sub, ast.Call) and dotted(sub.func) == "abs" for sub in ast.walk(key_arg)))
+            okey = func_key(func, node) + " [order]"
+            if decoded:
+                rule.ok(okey, "ordered by abs(key)")
+            else:
+                rule.fail(okey, where(func, node), f"'{norm(node)[:80]}' orders the sign-encoded pragma keys as plain numbers: the '<!---' pragmas (negative keys) come first whatever their line, so pragma lines are re-inserted / shifted in the wrong order")
+    if orderings < 1:
+        raise AnalysisError("no ordering of the pragma keys found (1 confirmed: the regenerator re-inserts pragma lines in line order)")
     seeds = [(func, var) for func, var, _ in consumers]
     tainted = _key_taint(prog, seeds)
     # R11h part: a table is never re-keyed entry by entry while a loop walks its keys (entries collide)
@@ -516,6 +562,34 @@ def r11d(ctx: Context) -> None:
                 if isinstance(node, ast.Call) and (dotted(node.func) or "").endswith("find_nth_occurrence"):
                     if any(isinstance(sub, ast.Name) and sub.id == var for a in node.args for sub in ast.walk(a)) and not any(isinstance(sub, ast.Call) and dotted(sub.func) == "abs" for a in node.args for sub in ast.walk(a)):
                         uses_as_number.append(node)
+            # arithmetic on a raw key must know its sign: under a test of the key against 0, or with an operand
+            # that itself depends on that test ('delta if key > 0 else -delta')
+            def sign_test(expr: ast.AST) -> bool:
+                return any(
+                    isinstance(sub, ast.Compare) and len(sub.comparators) == 1
+                    and (isinstance(sub.left, ast.Name) and sub.left.id == var and isinstance(sub.comparators[0], ast.Constant) and sub.comparators[0].value == 0
+                         or isinstance(sub.comparators[0], ast.Name) and sub.comparators[0].id == var and isinstance(sub.left, ast.Constant) and sub.left.value == 0)
+                    for sub in ast.walk(expr)
+                )
+
+            blind = []
+            for node in walk_local(func.node):
+                arithmetic = None
+                if isinstance(node, ast.AugAssign) and isinstance(node.op, (ast.Add, ast.Sub)) and isinstance(node.target, ast.Name) and node.target.id == var:
+                    arithmetic = node.value
+                elif isinstance(node, ast.BinOp) and isinstance(node.op, (ast.Add, ast.Sub)):
+                    if isinstance(node.left, ast.Name) and node.left.id == var:
+                        arithmetic = node.right
+                    elif isinstance(node.right, ast.Name) and node.right.id == var:
+                        arithmetic = node.left
+                if arithmetic is None:
+                    continue
+                if sign_test(arithmetic) or any(sign_test(test) for test, _pol in guards_of(func.node, node, include_asserts=False)):
+                    continue
+                blind.append(node)
+            if blind:
+                rule.fail(f"{func.short}: pragma key '{var}' [arithmetic]", where(func, blind[0]), f"'{norm(blind[0])[:80]}' does arithmetic on '{var}', a pragma_lines key that is negative for the '<!---' prefix, without regard to its sign: such pragma lines move the wrong way")
+                continue
             if not uses_as_number and not decodes:
                 # passes the key on verbatim (as a dictionary key or argument): nothing to decode here
                 rule.ok(f"{func.short}: '{var}' (passed on)", "not used as a number")
